@@ -268,7 +268,13 @@ ssize_t __wrap_pread64(int a, void* b, size_t c, off_t d) { FAIL_IF("pread", "",
 ssize_t __real_pwrite64(int, const void*, size_t, off_t);
 ssize_t __wrap_pwrite64(int a, const void* b, size_t c, off_t d) { FAIL_IF("pwrite", "", -1); return __real_pwrite64(a, b, c, d); }
 pid_t __real_fork(void);
-pid_t __wrap_fork(void) { FAIL_IF("fork", "", -1); return __real_fork(); }
+pid_t __wrap_fork(void) {
+  pid_t p;
+  FAIL_IF("fork", "", -1);
+  p = __real_fork();
+  if (p == 0) fi_on = 0;   /* the grandchild must not touch the injection state */
+  return p;
+}
 pid_t __real_waitpid(pid_t, int*, int);
 pid_t __wrap_waitpid(pid_t a, int* b, int c) { FAIL_IF("waitpid", "", -1); return __real_waitpid(a, b, c); }
 int __real_ioctl(int, unsigned long, ...);
